@@ -14,6 +14,10 @@ H = {
                             strs.load_sym, strs.load_real),
     'mask-mixed': R.Harness('mask-mixed', strs.scen_mask_mixed,
                             strs.load_sym, strs.load_real),
+    'mask-twice': R.Harness('mask-twice', strs.scen_mask_twice,
+                            strs.load_sym, strs.load_real),
+    'mask-overlap': R.Harness('mask-overlap', strs.scen_mask_overlap,
+                              strs.load_sym, strs.load_real),
     'nokey': R.Harness('nokey', strs.scen_nokey, strs.load_sym,
                        strs.load_real),
 }
@@ -45,6 +49,11 @@ def build_jobs(tier, seed):
             if a != b:
                 jobs.append(J(H['mask-mixed'], dict(
                     key='password', renderings=[a, b])))
+    for r in ('bare-eq', 'json-dq', 'xml', 'dashdash'):
+        jobs.append(J(H['mask-twice'], dict(key='password', rendering=r)))
+    # (not XML: there the tag name has to be the key itself)
+    for r in ('bare-eq', 'dq-eq', 'json-dq', 'dict-sq'):
+        jobs.append(J(H['mask-overlap'], dict(rendering=r)))
     jobs.append(J(H['nokey'], dict(n=5 if tier == 'quick' else 6),
                   split_depth=8))
     if tier == 'thorough':
